@@ -68,6 +68,12 @@ var rejections = []rejection{
 	{"calendar_dates.txt", "bad-date-of-a-new-service", map[string]string{"service_id": "ZZNEWSERVICE", "date": "20241345"}, 1},
 	{"calendar_dates.txt", "blank-exception_type-of-a-new-service", map[string]string{"service_id": "ZZNEWSERVICE", "exception_type": ""}, 1},
 	{"calendar.txt", "bad-end_date-of-a-new-service", map[string]string{"service_id": "ZZNEWSERVICE", "end_date": "2024"}, 1},
+	// eight digits, month and day in range, but no such day in that month
+	{"calendar.txt", "no-such-day-start_date", map[string]string{"start_date": "20230229"}, 1},
+	{"calendar.txt", "no-such-day-end_date", map[string]string{"end_date": "20240431"}, 1},
+	{"calendar_dates.txt", "no-such-day-date", map[string]string{"date": "20240631"}, 1},
+	{"calendar_dates.txt", "no-such-day-date-of-a-new-service", map[string]string{"service_id": "ZZNEWSERVICE", "date": "20230230"}, 1},
+	{"calendar.txt", "no-such-day-start_date-of-a-new-service", map[string]string{"service_id": "ZZNEWSERVICE", "start_date": "20220931"}, 1},
 	{"stop_times.txt", "unknown-trip_id-twice-in-a-row", map[string]string{"trip_id": "NOSUCH"}, 2},
 	{"stop_times.txt", "unknown-trip_id-three-times-in-a-row", map[string]string{"trip_id": "NOSUCH"}, 3},
 	{"stop_times.txt", "unknown-stop_id-twice-in-a-row", map[string]string{"stop_id": "NOSUCH"}, 2},
@@ -135,7 +141,9 @@ func spliceRejected(m *feedModel, rj rejection, pos int, tag string) []string {
 		// every cell that is not a reference gets a valid value of its own, different from the row
 		// it was copied from: whatever a rejected row leaks into the result then shows
 		switch sp.Kind {
-		case kText, kTextReq:
+		case kText:
+			row[i] = "  JUNK " + tag // begins with blanks (written without quotes): the warning quotes the cell as it is
+		case kTextReq:
 			row[i] = "JUNK " + tag
 		case kZone:
 			row[i] = "Asia/Tokyo"
@@ -187,20 +195,45 @@ func c09Harness(nInsert int) Harness {
 		n := baseCounts
 		n.trips, n.stopTimes = 3, 6
 		base := genStaticFeedN(c, false, n, nil, nil)
+		// the causes are drawn first: some base options only matter for some files
+		var causes []rejection
+		agencyOrRoutes, hasMultiAgencyCause := false, false
+		for k := 0; k < nInsert; k++ {
+			rj := rejections[c.Free(fmt.Sprintf("insert%d.cause", k), len(rejections))]
+			causes = append(causes, rj)
+			if rj.file == "agency.txt" || rj.file == "routes.txt" {
+				agencyOrRoutes = true
+			}
+			if rj.name == "blank-agency_id-with-several-agencies" {
+				hasMultiAgencyCause = true // in a single-agency feed that row is valid, not rejected
+			}
+		}
+		if agencyOrRoutes && !hasMultiAgencyCause && c.Free("single_agency_feed_with_blank_route_agency_ids", 2) == 1 {
+			// one valid agency: routes may leave agency_id blank - also when another agency row is rejected
+			a := base.t("agency.txt")
+			a.Rows = a.Rows[:1]
+			rt := base.t("routes.txt")
+			for r := range rt.Rows {
+				rt.set(r, "agency_id", "")
+			}
+		}
 		// physical lines and data rows need not coincide: blank lines between rows, and a
 		// quoted cell spanning two lines in the first valid agency row
 		pres := presentation{BlankLines: c.Free("blank_lines_between_rows", 2) == 1}
-		if c.Free("seventy_unknown_columns_first", 2) == 1 {
-			pres.ExtraCol = 4 // every column the parser knows then sits beyond index 64
+		switch c.Free("unknown_columns", 3) {
+		case 1:
+			pres.ExtraCol = 4 // seventy in front: every column the parser knows then sits beyond index 64
+		case 2:
+			pres.ExtraCol = 5 // two at the end that share one name
 		}
-		if c.Free("multi_line_cell_in_first_agency_row", 2) == 1 {
+		if agencyOrRoutes && c.Free("multi_line_cell_in_first_agency_row", 2) == 1 {
 			base.t("agency.txt").set(0, "agency_phone", "line one\nline two")
 		}
 		m := base.clone()
 		var ins []insertion
 		var desc []string
 		for k := 0; k < nInsert; k++ {
-			rj := rejections[c.Free(fmt.Sprintf("insert%d.cause", k), len(rejections))]
+			rj := causes[k]
 			t := m.t(rj.file)
 			pos := c.Free(fmt.Sprintf("insert%d.position", k), len(t.Rows)+1)
 			if pos > len(t.Rows) {
